@@ -12,7 +12,7 @@
    message (canonical encoding); [ed_abs] = what the accessors of the dump read back. *)
 From LibcoapV Require Import Base.Tactics Base.Bytes Wire.OptCodec Wire.OptCodecProofs Wire.Pdu
   Wire.PduProofs Wire.Build Edit.EdSpec Edit.EdBytes Edit.EdSpecProofs Edit.EdPatch
-  Edit.EdBytesProofs Edit.EdStart Edit.EdDup Edit.EdResize Edit.EdRefuted Edit.EdExample.
+  Edit.EdBytesProofs Edit.EdStart Edit.EdDup Edit.EdBuild Edit.EdResize Edit.EdRefuted Edit.EdExample.
 Local Open Scope Z_scope.
 
 (* ---- refinement: bytes vs. abstract message ---- *)
@@ -56,10 +56,15 @@ Theorem C04_start_parsed : forall pr bs max,
 Proof. exact ed_start_wire_rep. Qed.
 Print Assumptions C04_start_parsed.
 
-(* ... or built through the API *)
+(* ... or built through the API: coap_pdu_init, coap_add_token, coap_add_option, coap_add_data
+   transcribed on the buffer give exactly the canonical buffer of the abstract builder's message
+   (same return values), and that message is well-formed *)
 Theorem C04_start_built : forall ops ty code mid max,
-  0 <= max -> Forall ed_bop_ok ops -> ed_pwf (snd (run_ops (pdu_init ty code mid max) ops)).
-Proof. exact ed_pwf_built. Qed.
+  0 <= max -> Forall ed_bop_ok ops ->
+  let q := snd (run_ops (pdu_init ty code mid max) ops) in
+  ed_b_build (ed_b_init ty code mid max) ops =
+    Some (fst (run_ops (pdu_init ty code mid max) ops), ed_of_pdu q) /\ ed_pwf q.
+Proof. exact ed_built_refines. Qed.
 Print Assumptions C04_start_built.
 
 (* edits, then the wire, then the parser: the bytes after any edit list serialise (all three
